@@ -478,7 +478,9 @@ FEAT_MAP = '{"batch", "delete", "restart", "sync", "merge"}'
 GEN_CRASH = [dict(consts=dict(Features=FEAT_CRASH, MaxOps=8, MaxFaults=2, MaxMerges=0, MaxRestarts=1), num=300, thorough_num=3000, depth=80)]
 GEN_BATCH = [dict(consts=dict(Features=FEAT_BATCH, MaxOps=8, MaxBatch=3, MaxFaults=2, MaxMerges=0, MaxRestarts=1, Vals='{1, 3}'), num=300, thorough_num=3000, depth=80)]
 GEN_MERGEC = [dict(consts=dict(Features=FEAT_MERGEC, MaxOps=6, MaxFaults=3, MaxMerges=2, MaxRestarts=2, MaxBatch=2, Vals='{1, 2}', BigVals='{}'), num=300, thorough_num=3000, depth=100)]
-GEN_MERGE = [dict(consts=dict(Features=FEAT_MERGE, MaxOps=7, MaxFaults=0, MaxMerges=2, MaxRestarts=2, MaxBatch=2), num=300, thorough_num=3000, depth=100)]
+GEN_MERGE = [dict(consts=dict(Features=FEAT_MERGE, MaxOps=7, MaxFaults=0, MaxMerges=2, MaxRestarts=2, MaxBatch=2), num=200, thorough_num=2000, depth=100),
+             # every Open chooses its own file-size limit (merge output needing fewer / more files than the input)
+             dict(consts=dict(Features=FEAT_MERGE, MaxOps=7, MaxFaults=0, MaxMerges=2, MaxRestarts=3, MaxBatch=2, Limits='{1, 2, 3}'), num=200, thorough_num=2000, depth=100)]
 GEN_MAP = [dict(consts=dict(Features=FEAT_MAP, MaxOps=10, MaxFaults=0, MaxMerges=1, MaxRestarts=2, MaxBatch=3), num=300, thorough_num=3000, depth=100)]
 GEN_SYNC = [dict(consts=dict(Features='{"batch", "syncbatch", "delete", "sync", "restart"}', MaxOps=8, MaxFaults=0, MaxMerges=0, MaxRestarts=1, SyncAlways='TRUE'), num=200, thorough_num=2000, depth=80)]
 PROPS['C03']['traces'].append(gen_family('gencrash', GEN_CRASH))
